@@ -413,7 +413,9 @@ impl World {
     let mut v = vec![];
     match pl.src_ticks {
       Some(t) => v.push(Sub::InfoTs { ticks: Some(t) }),
-      None => v.push(Sub::InfoTs { ticks: None }),
+      // no timestamp: said explicitly (invalidate flag), or not at all (a new message starts without one)
+      None if sn % 2 == 1 => v.push(Sub::InfoTs { ticks: None }),
+      None => {}
     }
     v.push(Sub::Data {
       reader,
@@ -439,7 +441,9 @@ impl World {
     let mut v = vec![];
     match pl.src_ticks {
       Some(t) => v.push(Sub::InfoTs { ticks: Some(t) }),
-      None => v.push(Sub::InfoTs { ticks: None }),
+      // no timestamp: said explicitly (invalidate flag), or not at all (a new message starts without one)
+      None if sn % 2 == 1 => v.push(Sub::InfoTs { ticks: None }),
+      None => {}
     }
     v.push(Sub::DataFrag {
       reader,
@@ -658,7 +662,13 @@ impl World {
           let wr = &self.writers[wi];
           let sn2 = wr.first_avail + ctx.ch.draw((wr.written() - wr.first_avail + 1) as u64) as i64;
           if matches!(wr.plans[(sn2 - 1) as usize].kind, Kind::Plain) {
-            subs.extend(self.data_sub(wi, sn2, reader));
+            // a second DATA in the same message inherits the message's timestamp state, so it says
+            // explicitly what its own is
+            let mut more = self.data_sub(wi, sn2, reader);
+            if !matches!(more.first(), Some(Sub::InfoTs { .. })) {
+              more.insert(0, Sub::InfoTs { ticks: None });
+            }
+            subs.extend(more);
             ctx.count("probe.two_data_in_one_message");
           }
         }
